@@ -1,4 +1,5 @@
 import Dcg.Proofs.Resolver
+import Dcg.Proofs.ResolverWorklist
 /-
 C06 — each named schema yields exactly one model and every reference lands on it.
 Only property theorems live here; helper lemmas are in Dcg/Proofs/Resolver.lean.
@@ -273,5 +274,38 @@ theorem resolveRef_injective_local (root : List Str) (r r' p : Str)
 
 example : resolveRef [] (L "#/definitions/Pet") = .ok (L "#/definitions/Pet") ∧
     resolveRef [] (L "#/definitions/pet") = .ok (L "#/definitions/pet") := by decide
+
+/-! ### references into parts of the document that are not parsed yet (`reserved_refs` work list) -/
+
+section Worklist
+open Dcg.Model.ResolverWorklist Dcg.Proofs.ResolverWorklist
+
+/-- COMPLETENESS of the `while reserved_refs:` loop of `_parse_file`: when it ends normally, every
+pointer that was ever reserved — also those discovered while reserved pointers were being parsed —
+has been parsed and registered as loaded. (A reserved pointer that does not exist in the document
+ends the run with `missing`, i.e. a reported error, never silently.) -/
+theorem worklist_complete (doc : Ptr → Option (List Ptr)) (fuel : Nat) (st st' : WState)
+    (h : loop doc fuel st = .done st') : ∀ r ∈ st'.reserved, r ∈ st'.loaded :=
+  loop_complete doc fuel st st' h
+
+/-- TERMINATION: the reserved set only grows and stays inside the finite set `U` of references
+written in the document, so at most `|U| + 1` rounds are made. -/
+theorem worklist_terminates (U : List Ptr) (doc : Ptr → Option (List Ptr)) (hc : Closed U doc)
+    (st : WState) (hnd : st.reserved.Nodup) (hsub : ∀ r ∈ st.reserved, r ∈ U) :
+    loop doc (U.length + 1) st ≠ .outOfFuel :=
+  loop_fuel hc (U.length + 1) st ⟨hnd, hsub⟩ (by omega)
+
+/-- non-vacuity: a chain `s0 → s1 → s2` outside the definitions container, of which only `s0` is
+reserved at the start: one round is not enough, the loop finds and loads all three. -/
+example :
+    let doc : Ptr → Option (List Ptr) := fun p =>
+      [(L "#/extras/s0", [L "#/extras/s1"]), (L "#/extras/s1", [L "#/extras/s2"]), (L "#/extras/s2", [])].lookup p
+    let st : WState := { loaded := [L "#"], reserved := [L "#/extras/s0"] }
+    loop doc 1 st = .outOfFuel ∧
+      loop doc 4 st = .done { loaded := [L "#/extras/s2", L "#/extras/s1", L "#/extras/s0", L "#"],
+                              reserved := [L "#/extras/s0", L "#/extras/s1", L "#/extras/s2"] } := by
+  decide
+
+end Worklist
 
 end Dcg.Props.C06
